@@ -127,7 +127,7 @@ Section FMapFacts.
   | LS_none : all_ret lg -> log_shape lg None
   | LS_user : forall e c l1 l2, lg = l1 ++ c :: l2 -> all_ret l1 -> ubody (fst c) (snd c) = Raised e ->
                                 (stop = true -> l2 = []) -> log_shape lg (Some (FailUser e c))
-  | LS_lib : forall x, (stop = true -> all_ret lg) -> log_shape lg (Some (FailLib x)).
+  | LS_lib : forall x, log_shape lg (Some (FailLib x)).
 
   Lemma log_shape_none : forall lg, log_shape lg None -> all_ret lg.
   Proof. intros lg H. inversion H. assumption. Qed.
@@ -160,12 +160,9 @@ Section FMapFacts.
           -- rewrite E3, El. rewrite <- app_assoc. reflexivity.
           -- intros Hc. rewrite Est in Hc. discriminate.
       + destruct stop eqn:Est; simpl in H.
-        * inversion H; subst. unfold fail_of_results, first_fail. simpl. apply LS_lib. intros _.
-          destruct Hs as [El|(sel & El & Hr)]; rewrite El; [exact Hall|].
-          apply Forall_app. split; [exact Hall|]. constructor; [exact Hr|constructor].
+        * inversion H; subst. unfold fail_of_results, first_fail. simpl. apply LS_lib.
         * destruct (FailingMap.exec_tasks ubody dump_sub false ts st1) as [st2 rs'] eqn:E2.
           inversion H; subst. unfold fail_of_results, first_fail. simpl. apply LS_lib.
-          intros Hc. rewrite Est in Hc. discriminate.
   Qed.
 
   (* a failing task reported as a user failure belongs to the task list and names its own function *)
@@ -248,7 +245,7 @@ Section FMapFacts.
   Proof.
     intros shapes gen st st' rs fl Hall H. unfold FailingMap.gen_run in H.
     destruct (gen_tasks shapes gen (m_env st)) as [ts|x] eqn:Eg.
-    2:{ inversion H; subst. split; [apply LS_lib; intros _; exact Hall|]. split.
+    2:{ inversion H; subst. split; [apply LS_lib|]. split.
         - exists []. rewrite app_nil_r. split; [reflexivity|constructor].
         - intros e c Hc. discriminate. }
     pose proof (gen_tasks_funcs _ _ _ _ Eg) as Hfun.
@@ -260,21 +257,20 @@ Section FMapFacts.
       rewrite Forall_forall in Hfun. apply Hfun. exact Ht. }
     unfold fail_of_results in Hsh.
     destruct (first_fail rs1) as [[t r]|] eqn:Ef.
-    - assert (Hlog : forall st2, (post_funcs rs1 (if stop then [] else funcs_before (t_f t) gen) st1 = Ok st2)
-                                 -> m_log st2 = m_log st1) by (intros; eapply post_funcs_log; eauto).
-      assert (Huser : forall e c, Some (failure_of r) = Some (FailUser e c) -> In (fst c) gen).
+    - assert (Huser : forall e c, Some (failure_of r) = Some (FailUser e c) -> In (fst c) gen).
       { intros e c Hc. destruct r; simpl in Hc; inversion Hc; subst.
         destruct (first_fail_user _ _ _ _ _ _ _ Ex Ef) as [Hin Hfc]. rewrite Hfc.
         rewrite Forall_forall in Hfun. apply Hfun. exact Hin. }
-      destruct (FailingMap.post_funcs dump_sub rs1 (if stop then [] else funcs_before (t_f t) gen) st1) as [st2|x] eqn:Ep.
-      + inversion H; subst. rewrite (Hlog _ eq_refl). split; [exact Hsh|]. split; [|exact Huser].
+      destruct (salvage_all dump_sub (take_done rs1) gen (m_store st1)) as [s2|x] eqn:Ep.
+      + inversion H; subst. simpl. split; [exact Hsh|]. split; [|exact Huser].
         exists new. split; [exact El|exact Fn'].
-      + inversion H; subst. split; [exact Hsh|]. split; [|exact Huser]. exists new. split; [exact El|exact Fn'].
+      + inversion H; subst. split; [apply LS_lib|]. split; [|intros e c Hc; discriminate].
+        exists new. split; [exact El|exact Fn'].
     - destruct (FailingMap.post_funcs dump_sub rs1 gen st1) as [st2|x] eqn:Ep.
       + inversion H; subst. rewrite (post_funcs_log _ _ _ _ Ep). split; [exact Hsh|]. split.
         * exists new. split; [exact El|exact Fn'].
         * intros e c Hc. discriminate.
-      + inversion H; subst. apply log_shape_none in Hsh. split; [apply LS_lib; intros _; exact Hsh|]. split.
+      + inversion H; subst. apply log_shape_none in Hsh. split; [apply LS_lib|]. split.
         * exists new. split; [exact El|exact Fn'].
         * intros e c Hc. discriminate.
   Qed.
@@ -329,36 +325,43 @@ Section FMapFacts.
     - apply gens_run_spec in H; [|constructor]. simpl in H.
       destruct H as (Hsh & Hlen & (new & El & Fn) & Hu & _). simpl in El. rewrite <- El in Fn.
       repeat split; assumption.
-    - inversion H; subst. simpl. split; [apply LS_lib; intros _; constructor|].
+    - inversion H; subst. simpl. split; [apply LS_lib|].
       split; [lia|]. split; [constructor|]. intros e c Hc. discriminate.
   Qed.
 
   (* ================================================================== theorems *)
   (* error_surfaces: the first raising invocation of the run (in submission order) is what the call reports:
      the exception term unchanged, the note = that very invocation (function and keyword arguments); in the
-     sequential path nothing runs after it.  With an executor, a library error of an earlier task of the same
-     generation would be reported instead; that case is excluded by hypothesis. *)
-  Theorem map_error_surfaces : forall gens inputs user st tr fl lg1 c lg2 e,
+     sequential path nothing runs after it.  The only other possible outcome is an exception of the LIBRARY'S OWN
+     (an earlier task of the same generation whose machinery failed, or a failing dump while the completed results
+     are stored): first the hypothesis-free disjunction, then the usual form. *)
+  Theorem map_error_surfaces_or_lib : forall gens inputs user st tr fl lg1 c lg2 e,
     map_run_f gens inputs user = (st, tr, fl) ->
     m_log st = lg1 ++ c :: lg2 -> all_ret lg1 -> ubody (fst c) (snd c) = Raised e ->
-    (stop = false -> forall x, fl <> Some (FailLib x)) ->
-    fl = Some (FailUser e c) /\ (stop = true -> lg2 = []).
+    (fl = Some (FailUser e c) /\ (stop = true -> lg2 = [])) \/ exists x, fl = Some (FailLib x).
   Proof.
-    intros gens inputs user st tr fl lg1 c lg2 e H Hlog Hd Hr Hnolib.
+    intros gens inputs user st tr fl lg1 c lg2 e H Hlog Hd Hr.
     destruct (map_run_f_spec _ _ _ _ _ _ H) as (Hsh & _).
     assert (Hrc : mraises c) by (exists e; exact Hr).
-    inversion Hsh as [Hall|e' c' l1 l2 El Hd' Hr' Hstop|x Hlib]; subst.
+    inversion Hsh as [Hall|e' c' l1 l2 El Hd' Hr' Hstop|x]; subst.
     - exfalso. unfold all_ret in Hall. rewrite Forall_forall in Hall. rewrite Hlog in Hall.
       apply (mret_not_raise c); [apply Hall; apply in_or_app; right; left; reflexivity|exact Hrc].
     - rewrite Hlog in El.
       destruct (first_split_unique _ mreturns mraises mret_not_raise _ _ _ _ _ _ El Hd Hrc Hd'
                   (ex_intro _ e' Hr')) as (-> & -> & ->).
-      rewrite Hr in Hr'. inversion Hr'; subst. split; [reflexivity|exact Hstop].
-    - destruct stop eqn:Est.
-      + exfalso. specialize (Hlib eq_refl). unfold all_ret in Hlib. rewrite Forall_forall in Hlib.
-        rewrite Hlog in Hlib.
-        apply (mret_not_raise c); [apply Hlib; apply in_or_app; right; left; reflexivity|exact Hrc].
-      + exfalso. apply (Hnolib eq_refl x). reflexivity.
+      rewrite Hr in Hr'. inversion Hr'; subst. left. split; [reflexivity|exact Hstop].
+    - right. eauto.
+  Qed.
+
+  Theorem map_error_surfaces : forall gens inputs user st tr fl lg1 c lg2 e,
+    map_run_f gens inputs user = (st, tr, fl) ->
+    m_log st = lg1 ++ c :: lg2 -> all_ret lg1 -> ubody (fst c) (snd c) = Raised e ->
+    (forall x, fl <> Some (FailLib x)) ->
+    fl = Some (FailUser e c) /\ (stop = true -> lg2 = []).
+  Proof.
+    intros gens inputs user st tr fl lg1 c lg2 e H Hlog Hd Hr Hnolib.
+    destruct (map_error_surfaces_or_lib _ _ _ _ _ _ _ _ _ _ H Hlog Hd Hr) as [A|[x Hx]]; [exact A|].
+    exfalso. apply (Hnolib x). exact Hx.
   Qed.
 
   (* soundness of a reported user failure *)
